@@ -2,6 +2,8 @@
 
 package pgdump
 
+import "github.com/trufflesecurity/trufflehog/v3/pkg/detectors"
+
 // Verification hooks: add-only aliases of unexported functions so that an
 // external harness (built with -tags verif) can call them directly.
 // Not compiled in normal builds.
@@ -97,7 +99,14 @@ var (
 	VerifParseDroppedColumns     = parseDroppedColumns
 	VerifParseAllAttributes      = parseAllAttributes
 	VerifBuildColumnsWithDropped = buildColumnsWithDropped
+	VerifRowKeys                 = rowKeys
 )
+
+// VerifNewSecretScannerWith builds a SecretScanner around the given detectors
+// (the detectors field is unexported).
+func VerifNewSecretScannerWith(ds []detectors.Detector) *SecretScanner {
+	return &SecretScanner{detectors: ds}
+}
 
 // VerifScanTable exposes the unexported method (*SecretScanner).scanTable.
 func VerifScanTable(s *SecretScanner, dbName string, table *TableDump) []SecretFinding {
